@@ -23,7 +23,7 @@ HERE = os.path.dirname(os.path.abspath(__file__))
 sys.path.insert(0, os.path.dirname(HERE))
 
 from sa.model import Repo, AnalysisError  # noqa: E402
-from sa.report import Check  # noqa: E402
+from sa.report import Check, run_rules  # noqa: E402
 
 CMP_SWAP = {ast.Lt: ast.LtE, ast.LtE: ast.Lt, ast.Gt: ast.GtE, ast.GtE: ast.Gt, ast.Eq: ast.NotEq,
             ast.NotEq: ast.Eq, ast.Is: ast.IsNot, ast.IsNot: ast.Is, ast.In: ast.NotIn, ast.NotIn: ast.In}
@@ -226,7 +226,7 @@ def _run_one(i):
         try:
             mod = importlib.import_module("sa.rules.%s" % prop.lower())
             chk = Check(prop, "quick", r2, quiet=True)
-            mod.check(chk)
+            run_rules(mod, chk)
             new = [v for v in chk.violations if v["key"] not in base_keys]
             if new:
                 return (i, "fired", prop + ":" + ",".join(sorted({v["rule"] for v in new})))
@@ -250,7 +250,7 @@ def survey(props, repo, funcs=None, jobs=16, kinds=None):
     for prop in props:
         mod = importlib.import_module("sa.rules.%s" % prop.lower())
         base = Check(prop, "quick", repo, quiet=True)
-        mod.check(base)
+        run_rules(mod, base)
         analysed |= set(base.funcs_analysed)
         base_keys |= {v["key"] for v in base.violations}
     idents = []
@@ -317,7 +317,7 @@ def recheck(props, repo, path, jobs=16):
     for prop in props:
         mod = importlib.import_module("sa.rules.%s" % prop.lower())
         base = Check(prop, "quick", repo, quiet=True)
-        mod.check(base)
+        run_rules(mod, base)
         base_keys |= {v["key"] for v in base.violations}
     btexts = {}
     items = []
